@@ -64,7 +64,7 @@ class Check:
                     # the object sits under a key with characters that decoding / normalising would change; every such
                     # variant of the key holds a decoy (another message), so asking for the wrong key never goes unnoticed
                     key = fakes3.KEY_SHAPES[k % len(fakes3.KEY_SHAPES)]
-                    fakes3.install(s3mod, objects=fakes3.with_decoys({key: data}, DECOY), bucket='b')
+                    fakes3.install(s3mod, objects=fakes3.with_decoys({key: data}, DECOY), bucket='b', lazy=(k % 3 == 0))
                     res = {}
                     for how, fn in (('file', lambda: MosFile.from_file(path)), ('bytes', lambda: MosFile.from_string(data)),
                                     ('s3', lambda: MosFile.from_s3('b', key)),
@@ -171,7 +171,7 @@ class Check:
                     # a prefix cut out of a key at any position (it may overlap the suffix, or be the whole key)
                     k0 = rng.choice(keys)
                     prefix = k0[:rng.randrange(0, len(k0) + 1)]
-                fakes3.install(s3mod, pages=pages, objects={})
+                fakes3.install(s3mod, pages=pages, objects={}, lazy=(trial % 2 == 0))
                 got = s3mod.get_mos_files('bucket', prefix, suffix=suffix)
                 n += 1
                 pages = fakes3.filter_pages(pages, prefix)
